@@ -54,6 +54,8 @@ func main() {
 				runTanLine(line, obs, st)
 			case k == "crash":
 				crashLines = append(crashLines, line)
+			case k == "crashtorn":
+				runCrashTornLine(line, obs, st)
 			case k == "crashseq":
 				crashSeqLines = append(crashSeqLines, line)
 			default:
